@@ -421,8 +421,8 @@ class Run(object):
                     bad = [i for i in range(min(len(got), len(want))) if got[i] != want[i]]
                     raise Fail("label:" + name, "%s: %s is %s; the entities %s on the %s axis carry %s (first difference at %s)" % (
                         pre, name, got, ents[role], role, want, bad[:1] or "length"))
-                if arr.dtype.kind != numpy.dtype(NP_DTYPE[LABEL_DTYPE[name]]).kind:
-                    raise Fail("dtype", "%s: %s has dtype %s" % (pre, name, arr.dtype))
+                if arr.dtype != numpy.dtype(NP_DTYPE[LABEL_DTYPE[name]]):
+                    raise Fail("dtype", "%s: %s has dtype %s, created as %s" % (pre, name, arr.dtype, numpy.dtype(NP_DTYPE[LABEL_DTYPE[name]])))
         for role in dict.fromkeys(roles):
             if role not in GROUP:
                 continue
@@ -1166,7 +1166,8 @@ def run_history(case):
                         log.pop()
                         return False, "ok (scripted step %s not applicable after: %s)" % (forced, "; ".join(log)), None, len(log)
                 else:
-                    ent = run.pool[0] if rnd.random() < 0.6 else rnd.choice(run.pool)
+                    u = rnd.random()
+                    ent = run.pool[0] if u < 0.45 else (run.pool[-1] if u < 0.65 else rnd.choice(run.pool))
                     roles = [r for r in dict.fromkeys(ent.roles) if not r.startswith("x")]
                     role = rnd.choice(roles)
                     ops = run.available_ops(ent, role)
